@@ -88,19 +88,39 @@ def _print_Piecewise(
         else:
             return printer._print(cond)
 
-    try:
-        simplified = sympy.simplify(expr) if simplify else expr
-        # Keep the simplification only if it is still a Piecewise: e.g.
-        # Piecewise((x, Eq(x, y)), (y, True)) simplifies to the plain symbol y,
-        # which has no (expr, cond) pairs to print
-        # and ends with the unconditional branch that the printers require
-        if isinstance(simplified, sympy.Piecewise) and simplified.args[-1].cond == True:  # noqa: E712
-            expr = simplified
-    except Exception:
-        # Simplification is only cosmetic. sympy fails on some conditions that
-        # contain unevaluated numbers (e.g. `V < -1*40.0` from a Myokit import):
-        # "TypeError: did not evaluate to a bool". Print the expression as it is.
-        logger.debug("Could not simplify Piecewise, printing it unsimplified")
+    def simplify_cond(cond):
+        """Write |symbol| > number as (symbol > number) | (symbol < -number)
+
+        Nothing else is simplified: sympy.simplify *solves* the conditions of a
+        nested Piecewise, and it solves sin(t) > 0.5 on the first period only
+        (0.52 < t < 2.62) and returns open bounds for x**-2 >= 0.25, which
+        silently changes the branch that the generated code takes.
+        """
+        if (
+            isinstance(cond, sympy.core.relational.Relational)
+            and isinstance(cond.lhs, sympy.Abs)
+            and cond.lhs.args[0].is_Symbol
+            and cond.rhs.is_number
+        ):
+            x, c = cond.lhs.args[0], cond.rhs
+            if cond.rel_op == ">":
+                return sympy.Or(x > c, x < -c)
+            if cond.rel_op == ">=":
+                return sympy.Or(x >= c, x <= -c)
+            if cond.rel_op == "<":
+                return sympy.And(x < c, x > -c)
+            if cond.rel_op == "<=":
+                return sympy.And(x <= c, x >= -c)
+        return cond
+
+    if simplify:
+        try:
+            expr = sympy.Piecewise(
+                *[(arg.expr, simplify_cond(arg.cond)) for arg in expr.args], evaluate=False
+            )
+        except Exception:
+            # Simplification is only cosmetic. Print the expression as it is.
+            logger.debug("Could not simplify Piecewise, printing it unsimplified")
 
     exprs = [printer._print(arg.expr) for arg in expr.args]
     conds = [print_cond(arg.cond) for arg in expr.args]
